@@ -183,29 +183,47 @@ def d6_coordinate_field(chk, repo):
     sites = v.ctor_sites(FIELD)
     chk.require(sites, "coordinate_field: no Field construction")
     s = sites[0]
+    from ..lib import mapping_entries
+    vm = s.args.get("vdim_mapping")
+    dims_el = each(v, v.spec("self.region.dims"))
+    ok_map = vm is not None and (v.eq(vm, v.spec("dict(zip(self.region.dims, self.region.dims))")) or (
+        bool(mapping_entries(v.ctx, vm)) and all(v.eq(k_, dims_el) and v.eq(v_, dims_el) and not c_
+                                                 for k_, v_, c_ in mapping_entries(v.ctx, vm))))
     ok = v.eq(s.args.get("mesh"), v.spec("self")) and s.args.get("nvdim") is not None and \
         v.eq(s.args["nvdim"], v.spec("self.region.ndim")) and s.args.get("vdims") is not None and \
-        v.eq(s.args["vdims"], v.spec("self.region.dims")) and s.args.get("vdim_mapping") is not None and \
-        v.eq(s.args["vdim_mapping"], v.spec("dict(zip(self.region.dims, self.region.dims))"))
+        v.eq(s.args["vdims"], v.spec("self.region.dims")) and ok_map
     chk.ob("mesh.Mesh.coordinate_field::construction", ok, "C01.D6",
            f"`{v.src(s.call)}`: expected Field(self, nvdim=ndim, vdims=dims, vdim_mapping=dict(zip(dims, dims)))", v.f, s.call)
-    stores = [st for st in v.stmts() if isinstance(st, ast.Assign) and isinstance(st.targets[0], ast.Subscript)]
+    # the store into component i (stores into local helper lists - a shape built entry by entry - are not component stores)
+    stores = []
+    for st in v.stmts():
+        if isinstance(st, ast.Assign) and isinstance(st.targets[0], ast.Subscript):
+            fa = v.ctx.head_of(v.term(st.targets[0].value, at=st))
+            if fa is not None and fa[0] in ("attr", "prop") and fa[1] in ("array", "_array"):
+                stores.append(st)
     ok = False
     det = "no component store"
     if len(stores) == 1:
         st = stores[0]
         tgt = st.targets[0]
-        base = v.term(tgt.value, at=st)
         idx = v.ev._index(tgt.slice, v.cfg.node(st), None)
         val = v.term(st.value, at=st)
-        i = v.ctx.mk(("index",), (v.spec("self.region.dims"),))
-        d = each(v, v.spec("self.region.dims"))
-        env = {"i": i, "d": d}
-        want_idx = v.spec("(..., i)", env=env)
-        want_val = v.spec("getattr(self.cells, d).reshape(tuple(self.n[i] if i == j else 1 for j in range(self.region.ndim)))", env=env)
-        fa = v.ctx.head_of(base)
-        ok = v.eq(idx, want_idx) and v.eq(val, want_val) and fa is not None and fa[0] in ("attr", "prop") and fa[1] in ("array", "_array")
         det = f"[{v.show(idx)}] = {v.show(val)[:220]}"
+        # the loop runs over the dims (cells looked up by name) or over the cells themselves (same order): either way
+        # component i, the centres of axis i and the one non-unit entry i of the shape belong together
+        for base, elem in (("self.region.dims", "getattr(self.cells, d)"), ("self.cells", "d")):
+            i = v.ctx.mk(("index",), (v.spec(base),))
+            d = each(v, v.spec(base))
+            env = {"i": i, "d": d}
+            c = decode_call(v.ctx, val)
+            if not (v.eq(idx, v.spec("(..., i)", env=env)) and c and c[0] == ".reshape" and len(c[1]) == 2 and
+                    v.eq(c[1][0], v.spec(elem, env=env))):
+                continue
+            shape = c[1][1]
+            want_gen = v.spec("tuple(self.n[i] if i == j else 1 for j in range(self.region.ndim))", env=env)
+            want_ones = v.ctx.mk(("store",), (v.spec("[1] * self.region.ndim"), i, v.spec("self.n[i]", env=env)))
+            if v.eq(shape, want_gen) or v.eq(shape, want_ones):
+                ok = True
     chk.ob("mesh.Mesh.coordinate_field::component-axis-pairing", ok, "C01.D6",
            f"component store {det}; the enumerate pair (i, dim) must be used consistently as component index, cells attribute "
            "and the one non-unit entry of the reshape", v.f, stores[0] if stores else None)
